@@ -135,6 +135,18 @@ class RRELParent(RRELBase):
         return None, lookup_list, matched_path
 
 
+def _quote_fixed_name(name):
+    """
+    Quotes a fixed name such that the parser reads back the same name
+    (see `string_value`: a quote character inside the string must be
+    preceded by a backslash, which stays part of the name).
+    """
+    for q in "'", '"':
+        if q not in name.replace("\\" + q, "") and not name.endswith("\\"):
+            return q + name + q
+    return "'" + name + "'"
+
+
 class RRELNavigation(RRELBase):
     def __init__(self, name, consume_name, fixed_name):
         super().__init__()
@@ -146,7 +158,7 @@ class RRELNavigation(RRELBase):
     def __repr__(self):
         if self.fixed_name is not None:
             assert not self.consume_name
-            return "'" + self.fixed_name + "'~" + self.name
+            return _quote_fixed_name(self.fixed_name) + "~" + self.name
         else:
             return self.name if self.consume_name else "~" + self.name
 
